@@ -23,6 +23,7 @@ import (
 	"runtime"
 	"strings"
 	"sync"
+	"sync/atomic"
 	"syscall"
 	"time"
 
@@ -332,6 +333,51 @@ func stackBurst(c *vlib.Cases, r *vlib.Rng, engine string, n int, prefix, epType
 
 var nonceRe = regexp.MustCompile(`nonce-[0-9a-f]+`)
 
+// stackBigFailover: a large upload with a declared length; the preferred endpoint consumes part of it and resets the
+// connection before answering; the next endpoint must still receive the whole body, byte for byte.
+func stackBigFailover(c *vlib.Cases, r *vlib.Rng, engine string, size int, chunked bool) {
+	a, b := stack.NewBackend("A"), stack.NewBackend("B")
+	defer a.Close()
+	defer b.Close()
+	atomic.StoreInt64(&a.AbortUploadAfter, int64(size/3+1))
+	b.KeepBodies = false
+	b.SetScript(func(_ int, s *stack.Seen) stack.Behaviour {
+		js, _ := json.Marshal(echo{Method: s.Method, Path: s.Path, Query: s.RawQuery, SHA: s.BodySHA, Len: s.BodyLen, Backend: "B"})
+		return stack.Behaviour{Kind: "ok", Status: 200, Headers: [][2]string{{"Content-Type", "application/json"}}, Body: js}
+	})
+	s, err := stack.Start(stack.Opts{Engine: engine, Balancer: "priority", EPs: []stack.EP{{Name: "A", Type: "openai", Priority: 300, Backend: a}, {Name: "B", Type: "openai", Priority: 100, Backend: b}}})
+	if err != nil {
+		c.Emit(map[string]any{"kind": "stack", "impl": map[string]any{"start_err": err.Error()}})
+		return
+	}
+	defer s.Stop()
+	_, body := mkBody(r, 0, size, false)
+	q := "big=1"
+	raw := stack.Request("POST", "/olla/proxy/v1/embeddings?"+q, s.Addr, [][2]string{{"Content-Type", "application/octet-stream"}}, body, chunked)
+	rp := stack.Do(s.Addr, raw, 60*time.Second)
+	type sent struct {
+		Method  string `json:"method"`
+		Target  string `json:"target"`
+		Rest    string `json:"rest"`
+		Query   string `json:"query"`
+		SHA     string `json:"sha"`
+		Len     int    `json:"len"`
+		Chunked bool   `json:"chunked"`
+		JSON    bool   `json:"json"`
+		Status  int    `json:"status"`
+		Err     string `json:"err"`
+		Echo    *echo  `json:"echo"`
+		Model   string `json:"model"`
+	}
+	o := sent{Method: "POST", Target: "/olla/proxy/v1/embeddings?" + q, Rest: "/v1/embeddings", Query: q, SHA: sha(body), Len: len(body), Chunked: chunked, Status: rp.Status, Err: rp.Err}
+	var e echo
+	if json.Unmarshal(rp.Body, &e) == nil && e.Backend != "" {
+		o.Echo = &e
+	}
+	c.Emit(map[string]any{"kind": "stack", "engine": engine, "clients": 1, "prefix": "/olla/proxy/", "type": "openai", "base": "", "preserve": false,
+		"failover_after_partial_upload": a.Count(), "impl": map[string]any{"requests": []sent{o}}})
+}
+
 // stackTranslated: N concurrent Anthropic requests that Olla translates to OpenAI chat requests
 // ("...and likewise for translated requests"): every upstream body must carry its own client's
 // nonces and model and nobody else's.
@@ -504,6 +550,19 @@ func main() {
 			stackBurst(c, r, engine, 4, cf.prefix, cf.ty, cf.base, cf.preserve)
 			c.Count("stack.prefixes")
 		}
+	}
+	// large uploads that fail over after the first endpoint consumed part of them (sizes around typical buffer / limit
+	// boundaries; the default max_body_size is 100 MiB)
+	bigs := []int{5 << 20, 33<<20 + 1}
+	if tier == "thorough" {
+		bigs = []int{1 << 20, 5 << 20, 16<<20 + 1, 32 << 20, 33<<20 + 1, 64<<20 + 1, 99 << 20}
+	}
+	for _, engine := range []string{"sherpa", "olla"} {
+		for _, sz := range bigs {
+			stackBigFailover(c, r, engine, sz, false)
+			c.Count("stack.bigfailover")
+		}
+		stackBigFailover(c, r, engine, 3<<20, true)
 	}
 	// translated (Anthropic -> OpenAI) requests under concurrency
 	xb := 6
